@@ -8,6 +8,8 @@ from ..exact import fzero, finf, fninf, fnan, raw_json as J, raw_unjson as U
 
 ID = "C05"
 LEVEL = "exploration"
+CASE_TIMEOUT = 30.0          # each case is a micro/milli-second integer kernel
+HANG_IS_VIOLATION = True
 RULE = ("Cases = pairs (a, b) over the types mpf, mpc, int, float, complex built from one exact value and its "
         "neighbours: the same value in another type, value +- 1 ulp, same top bit but different low bits (forces the "
         "subtraction fallback of the comparison), opposite signs, exponents around multiples of 61 and >= 61 (hash "
